@@ -635,6 +635,11 @@ Section C07.
   Lemma VS_same m m' fr fr' s : plainmode m' -> vars_ok base s -> HI None s -> VS (mkC m fr s) (mkC m' fr' s).
   Proof. intros Hm HV HH. split; [apply VP_plain; assumption|apply lifo_same; reflexivity]. Qed.
 
+  Lemma layers_drop_sb s : layers (drop_sb s) = layers s.
+  Proof. destruct (drop_sb_cases s) as [E|E]; rewrite E; reflexivity. Qed.
+  Lemma vc_drop_sb s : vc (drop_sb s) = vc s.
+  Proof. destruct (drop_sb_cases s) as [E|E]; rewrite E; reflexivity. Qed.
+
   Lemma vars_ok_same s s' : vc s' = vc s -> layers s' = layers s -> vars_ok base s -> vars_ok base s'.
   Proof. intros Hv Hl H. unfold vars_ok. rewrite Hl. apply (VOs_vc base s s' _ Hv H). Qed.
 
@@ -661,7 +666,8 @@ Section C07.
   Proof.
     intros (HFL & _) HV. apply VP_plain_inv in HV as [HVO HH]; [|exact I].
     destruct HFL as ((Hr & Hf & HS & Ht & _) & HF & HK). cbn in Hf, HS, Ht, HF, HK. subst fr. cbn [step c_mode c_frames c_st].
-    destruct (computed root s); [apply VS_same; auto; exact I|].
+    destruct (computed root s);
+      [split; [apply VP_plain; [exact I|apply (vars_ok_same s); [apply vc_drop_sb|apply layers_drop_sb|exact HVO]|apply (HI_view None s); [apply heap_drop_sb|exact HH]]|apply lifo_same; apply layers_drop_sb]|].
     assert (Hl : layers (with_tasks s (root :: tasks s)) = layers s).
     { rewrite (layers_cons _ root (tasks s)) by reflexivity. rewrite layers_lower.
       change (lower (with_tasks s (root :: tasks s)) (tasks s)) with (lower s (tasks s)).
@@ -678,7 +684,8 @@ Section C07.
   Proof.
     intros (HFL & _) HV. apply VP_plain_inv in HV as [HVO HH]; [|exact I].
     destruct HFL as ((Hr & Hf & HS & Ht & _) & HF & HK). cbn in Hf, HS, Ht, HF, HK. subst fr. cbn [step c_mode c_frames c_st].
-    destruct (computed root s); [apply VS_same; auto; exact I|].
+    destruct (computed root s);
+      [split; [apply VP_plain; [exact I|apply (vars_ok_same s); [apply vc_drop_sb|apply layers_drop_sb|exact HVO]|apply (HI_view None s); [apply heap_drop_sb|exact HH]]|apply lifo_same; apply layers_drop_sb]|].
     assert (Hts : tasks (continue_with_batch P s) = tasks s) by (apply tasks_of_regs; apply regs_continue_with_batch).
     assert (Hl : layers (continue_with_batch P s) = layers s).
     { unfold layers. rewrite Hts, HK. reflexivity. }
@@ -1337,14 +1344,14 @@ Section Awaiting.
     AW (step P (mkC MWaitHead fr s)).
   Proof.
     intros (HFL & _) HA. destruct HFL as ((Hr & Hf & HS & Ht & _) & HF & HK). cbn in Hf, HK. subst fr. cbn [step c_mode c_frames c_st].
-    destruct (computed root s); [exact HA|]. apply aw_short. cbn. rewrite HK. cbn. lia.
+    destruct (computed root s); [unfold AW in *; cbn [c_mode c_st] in *; apply (aw_frame s); [apply tasks_drop_sb|intros h0 _; apply get_drop_sb|exact HA]|]. apply aw_short. cbn. rewrite HK. cbn. lia.
   Qed.
 
   Lemma aw_MAfterExec spec S fr s : DL root res spec S (mkC MAfterExec fr s) -> AW (mkC MAfterExec fr s) ->
     AW (step P (mkC MAfterExec fr s)).
   Proof.
     intros (HFL & _) HA. destruct HFL as ((Hr & Hf & HS & Ht & _) & HF & HK). cbn in Hf, HK. subst fr. cbn [step c_mode c_frames c_st].
-    destruct (computed root s); [exact HA|]. apply aw_short. cbn [c_st].
+    destruct (computed root s); [unfold AW in *; cbn [c_mode c_st] in *; apply (aw_frame s); [apply tasks_drop_sb|intros h0 _; apply get_drop_sb|exact HA]|]. apply aw_short. cbn [c_st].
     rewrite (tasks_of_regs s _ (regs_continue_with_batch P s)), HK. cbn. lia.
   Qed.
 
